@@ -330,3 +330,7 @@ mod tests {
         assert_eq!(ntps.reference_id, ReferenceId::KISS_DENY);
     }
 }
+
+#[cfg(all(test, pendulum_project_ntpd_rs_verif))]
+#[path = "/verif/harness/ntp-proto/hook_system.rs"]
+mod verif_hook;
